@@ -219,6 +219,21 @@ def worker(shard, nshards, tier, seed):
                     acc.violation(f"C08|{kind}|{show(t)}|after-in-place-change",
                                   {"term": src(t), "term_show": show(t), "value": src(w),
                                    "mutation": mutate.__name__, "kind": kind})
+        # the value handed in is itself a schema - the very object, an equal rebuild, another one -
+        # alone and as a member (an opaque object like any other: never conforming, never fatal)
+        twin = try_build(t, leave_args=True)[0]
+        for label, obj in (("same-object", s), ("equal-schema", twin), ("other-schema", schema.int)):
+            for shape, v in (("alone", obj), ("in-list", [obj]), ("in-dict", {"a": obj})):
+                acc.count("validations")
+                acc.count("schema_as_value")
+                kind = check_value(s, v)
+                if kind is None and shape == "alone" and t[0] != "any" and not validate(s, v).has_errors() \
+                        and M.resolve(t)[0] not in ("any",):
+                    kind = "schema-object-accepted-as-a-value"
+                if kind:
+                    acc.violation(f"C08|{kind}|{show(t)}|schema-as-value:{label}:{shape}",
+                                  {"term": src(t), "term_show": show(t), "kind": kind,
+                                   "schema_as_value": [label, shape]})
         for z, v in cases:
             acc.count("validations")
             kind = check_value(s, v)
@@ -308,6 +323,14 @@ def replay(case):
         return f"build failed {err!r}"
     if case.get("user_extensions"):
         user_extensions()
+    if "schema_as_value" in case:
+        label, shape = case["schema_as_value"]
+        obj = {"same-object": s, "equal-schema": try_build(t, leave_args=True)[0], "other-schema": schema.int}[label]
+        v = {"alone": obj, "in-list": [obj], "in-dict": {"a": obj}}[shape]
+        kind = check_value(s, v)
+        if kind is None and case["kind"] == "schema-object-accepted-as-a-value" and not validate(s, v).has_errors():
+            kind = case["kind"]
+        return True if kind == case["kind"] else None
     if "mutation" in case:
         first = check_value(s, v)
         {m.__name__: m for m in MUTATIONS}[case["mutation"]](v)
